@@ -71,250 +71,278 @@ def pickMax (lt : Int → Int → Bool) : List Sample → Option Sample
 
 def removeSeq (s : Nat) (l : List Sample) : List Sample := l.filter (fun p => p.2 != s)
 
-def geti (a : Array Int) (i : Nat) : M Int :=
-  match a[i]? with
-  | some v => pure v
-  | none => throw "index"
+/-- `a[i]` of a `simple_vector<diff_type>` (all indices used by the algorithm are `< m`) -/
+def aget (a : Array Int) (i : Nat) : Int := a.getD i 0
+
+/-- `a[i] = v` -/
+def aset (a : Array Int) (i : Nat) (v : Int) : Array Int := a.setIfInBounds i v
 
 /-- which of the two routines (they differ in the tie rule of the `lmax`/`maxleft` scans) -/
 inductive Routine | partition | selection
   deriving DecidableEq
-
-/-- scan for the maximum of the left edges `first[a[i]-1]`; partition: "favor rear
-sequences" (`!comp(x, *lmax)`), selection: `comp(*lmax, x)`.  Returns value and sequence. -/
-def scanLmax (c : Ctx) (r : Routine) (m : Nat) (a : Array Int) : M (Option Sample) := do
-  let mut lmax : Option Sample := none
-  for i in List.range m do
-    let ai ← geti a i
-    if ai > 0 then
-      let x ← rd c i (ai - 1)
-      match lmax with
-      | none => lmax := some (x, i)
-      | some (v, _) =>
-        let take := match r with
-          | .partition => !c.lt x v
-          | .selection => c.lt v x
-        if take then
-          let x' ← rd c i (ai - 1)     -- `lmax = &(begin_seqs[i].first[a[i] - 1])` evaluates the read again
-          lmax := some (x', i)
-  return lmax
-
-structure Out where
-  a : Array Int
-  b : Array Int
-  seqlen : Array Int
 
 /-- the two splitter arrays of the refinement -/
 structure AB where
   a : Array Int
   b : Array Int
 
-/-- initial sample: `first[n]` of every sequence longer than `n`, sorted by (value, sequence),
-followed by the too-short sequences ("conceptual infinity", dummy read of `first[0]`) -/
-def initSample (c : Ctx) (seqlen : Array Int) (n : Nat) : M (List Sample) := do
-  let m := c.runs.size
-  let mut sample : List Sample := []
-  for i in List.range m do
-    if (n : Int) < seqlen[i]! then
+/-- the tie rule of the `lmax` / `maxleft` scans: partition "favor rear sequences" (`!comp(x, *lmax)`),
+selection `comp(*lmax, x)` -/
+def takesMax (lt : Int → Int → Bool) (r : Routine) (x v : Int) : Bool :=
+  match r with
+  | .partition => !lt x v
+  | .selection => lt v x
+
+/-- scan for the maximum of the left edges `first[a[i]-1]` over the sequences `is`.
+Returns value and sequence.  (The assignment `lmax = &first[a[i]-1]` evaluates the read again.) -/
+def scanLmax (c : Ctx) (r : Routine) (a : Array Int) : List Nat → Option Sample → M (Option Sample)
+  | [], lmax => pure lmax
+  | i :: is, lmax =>
+    if aget a i > 0 then do
+      let x ← rd c i (aget a i - 1)
+      match lmax with
+      | none => scanLmax c r a is (some (x, i))
+      | some (v, s) =>
+        if takesMax c.lt r x v then do
+          let x' ← rd c i (aget a i - 1)
+          scanLmax c r a is (some (x', i))
+        else scanLmax c r a is (some (v, s))
+    else scanLmax c r a is lmax
+
+/-- initial sample, first loop: `first[n]` of every sequence longer than `n` -/
+def sampleReal (c : Ctx) (seqlen : Array Int) (n : Nat) : List Nat → M (List Sample)
+  | [] => pure []
+  | i :: is =>
+    if (n : Int) < aget seqlen i then do
       let v ← rd c i n
-      sample := sample ++ [(v, i)]
-  sample := sortBy (lcomp c.lt) sample
-  for i in List.range m do
-    if (n : Int) ≥ seqlen[i]! then
+      let rest ← sampleReal c seqlen n is
+      pure ((v, i) :: rest)
+    else sampleReal c seqlen n is
+
+/-- initial sample, second loop: the too-short sequences ("conceptual infinity", dummy read of `first[0]`) -/
+def sampleDummy (c : Ctx) (seqlen : Array Int) (n : Nat) : List Nat → M (List Sample)
+  | [] => pure []
+  | i :: is =>
+    if (n : Int) ≥ aget seqlen i then do
       let v ← rd c i 0
-      sample := sample ++ [(v, i)]
-  return sample
+      let rest ← sampleDummy c seqlen n is
+      pure ((v, i) :: rest)
+    else sampleDummy c seqlen n is
 
-/-- `for (j = 0; j < localrank && n+1 <= seqlen[sample[j].second]; ++j) a[..] += n+1;
-     for (; j < m; ++j) b[..] -= n+1;` -/
-def initAB (m : Nat) (seqlen : Array Int) (sample : Array Sample) (n l localrank : Nat) : M AB := do
-  let mut a : Array Int := Array.replicate m 0
-  let mut b : Array Int := Array.replicate m (l : Int)
-  let mut j : Nat := 0
-  for _ in List.range (m + 1) do          -- at most m iterations (localrank < m)
-    if j < localrank then
-      match sample[j]? with
-      | none => throw "sample-index"
-      | some (_, s) =>
-        if ((n : Int) + 1) ≤ seqlen[s]! then
-          a := a.set! s (a[s]! + n + 1)
-          j := j + 1
-        else break
-    else break
-  for jj in (List.range m).drop j do
-    match sample[jj]? with
-    | none => throw "sample-index"
-    | some (_, s) => b := b.set! s (b[s]! - (n + 1))
-  return ⟨a, b⟩
+/-- initial sample: the real samples sorted by (value, sequence), followed by the dummies -/
+def initSample (c : Ctx) (seqlen : Array Int) (n : Nat) : M (List Sample) := do
+  let real ← sampleReal c seqlen n (List.range c.runs.size)
+  let dummy ← sampleDummy c seqlen n (List.range c.runs.size)
+  pure (sortBy (lcomp c.lt) real ++ dummy)
 
-/-- the `middle` loop of one round: compare `first[(a+b)/2]` with `lmax` -/
-def classify (c : Ctx) (r : Routine) (m : Nat) (seqlen : Array Int) (lmax : Option Sample) (n : Nat) (ab : AB) : M AB := do
-  let mut a := ab.a
-  let mut b := ab.b
-  for i in List.range m do
-    let middle : Int := (b[i]! + a[i]!).tdiv 2
-    let mut left := false
+/-- `for (j = 0; j < localrank && n+1 <= seqlen[sample[j].second]; ++j) a[..] += n+1;`
+returns the new `a` and the samples from `j` on -/
+def initLeft (seqlen : Array Int) (n localrank : Nat) : List Sample → Nat → Array Int → Array Int × List Sample
+  | [], _, a => (a, [])
+  | (v, s) :: rest, j, a =>
+    if j < localrank ∧ ((n : Int) + 1) ≤ aget seqlen s then
+      initLeft seqlen n localrank rest (j + 1) (aset a s (aget a s + n + 1))
+    else (a, (v, s) :: rest)
+
+/-- `for (; j < m; ++j) b[..] -= n+1;` -/
+def initRight (n : Nat) : List Sample → Array Int → Array Int
+  | [], b => b
+  | (_, s) :: rest, b => initRight n rest (aset b s (aget b s - (n + 1)))
+
+def initAB (m : Nat) (seqlen : Array Int) (sample : List Sample) (n l localrank : Nat) : AB :=
+  let (a, rest) := initLeft seqlen n localrank sample 0 (Array.replicate m 0)
+  ⟨a, initRight n rest (Array.replicate m (l : Int))⟩
+
+/-- the comparison of the `middle` loop: partition (after `fix: multisequence_partition breaks ties by
+sequence index`) compares in (value, sequence) order, selection plainly `comp(first[middle], *lmax)` -/
+def leftTest (lt : Int → Int → Bool) (r : Routine) (x : Int) (i : Nat) (lv : Int) (ls : Nat) : Bool :=
+  match r with
+  | .partition => lcomp lt (x, i) (lv, ls)
+  | .selection => lt x lv
+
+/-- the `middle` loop of one round: compare `first[(a+b)/2]` with `lmax` over the sequences `is`;
+`n` is the already halved value -/
+def classify (c : Ctx) (r : Routine) (seqlen : Array Int) (lmax : Option Sample) (n : Nat) : List Nat → AB → M AB
+  | [], ab => pure ab
+  | i :: is, ab =>
+    let middle : Int := (aget ab.b i + aget ab.a i).tdiv 2
     match lmax with
-    | none => pure ()
+    | none => classify c r seqlen lmax n is ⟨ab.a, aset ab.b i (aget ab.b i - (n + 1))⟩
     | some (lv, ls) =>
-      if middle < seqlen[i]! then
+      if middle < aget seqlen i then do
         let x ← rd c i middle
-        left := match r with
-          -- partition (after `fix: multisequence_partition ...`): (value, sequence) order
-          | .partition => lcomp c.lt (x, i) (lv, ls)
-          -- selection: plain `comp(first[middle], *lmax)`
-          | .selection => c.lt x lv
-    if left then
-      a := a.set! i (min (a[i]! + n + 1) seqlen[i]!)
-    else
-      b := b.set! i (b[i]! - (n + 1))
-  return ⟨a, b⟩
+        if leftTest c.lt r x i lv ls then
+          classify c r seqlen lmax n is ⟨aset ab.a i (min (aget ab.a i + n + 1) (aget seqlen i)), ab.b⟩
+        else
+          classify c r seqlen lmax n is ⟨ab.a, aset ab.b i (aget ab.b i - (n + 1))⟩
+      else classify c r seqlen lmax n is ⟨ab.a, aset ab.b i (aget ab.b i - (n + 1))⟩
 
-def leftsizeOf (m : Nat) (a : Array Int) (n : Nat) : Int := Id.run do
-  let mut leftsize : Int := 0
-  for i in List.range m do
-    leftsize := leftsize + (a[i]!).tdiv (n + 1)
-  return leftsize
+def leftsizeOf (a : Array Int) (n : Nat) : List Nat → Int
+  | [] => 0
+  | i :: is => (aget a i).tdiv (n + 1) + leftsizeOf a n is
 
-/-- `for (; skew != 0 && !pq.empty(); --skew)` of the `skew > 0` branch -/
+/-- the priority queue of the `skew > 0` branch: `first[b[i]]` of every sequence with `b[i] < seqlen[i]` -/
+def pqRight (c : Ctx) (seqlen : Array Int) (b : Array Int) : List Nat → M (List Sample)
+  | [] => pure []
+  | i :: is =>
+    if aget b i < aget seqlen i then do
+      let v ← rd c i (aget b i)
+      let rest ← pqRight c seqlen b is
+      pure ((v, i) :: rest)
+    else pqRight c seqlen b is
+
+/-- `for (; skew != 0 && !pq.empty(); --skew)` of the `skew > 0` branch: move to the left, find smallest -/
 def moveLeftLoop (c : Ctx) (seqlen : Array Int) (n : Nat) : Nat → List Sample → AB → M AB
   | 0, _, ab => pure ab
   | skew + 1, pq, ab =>
     match pickMin c.lt pq with
     | none => pure ab
-    | some (_, src) => do
-      let pq := removeSeq src pq
-      let a := ab.a.set! src (min (ab.a[src]! + n + 1) seqlen[src]!)
-      let b := ab.b.set! src (ab.b[src]! + (n + 1))
-      if b[src]! < seqlen[src]! then
-        let v ← rd c src b[src]!
-        moveLeftLoop c seqlen n skew (pq ++ [(v, src)]) ⟨a, b⟩
+    | some (_, src) =>
+      let a := aset ab.a src (min (aget ab.a src + n + 1) (aget seqlen src))
+      let b := aset ab.b src (aget ab.b src + (n + 1))
+      if aget b src < aget seqlen src then do
+        let v ← rd c src (aget b src)
+        moveLeftLoop c seqlen n skew (removeSeq src pq ++ [(v, src)]) ⟨a, b⟩
       else
-        moveLeftLoop c seqlen n skew pq ⟨a, b⟩
+        moveLeftLoop c seqlen n skew (removeSeq src pq) ⟨a, b⟩
 
-/-- `skew > 0`: move to the left, find smallest -/
-def moveLeft (c : Ctx) (m : Nat) (seqlen : Array Int) (n : Nat) (skew : Nat) (ab : AB) : M AB := do
-  let mut pq : List Sample := []
-  for i in List.range m do
-    if ab.b[i]! < seqlen[i]! then
-      let v ← rd c i ab.b[i]!
-      pq := pq ++ [(v, i)]
-  moveLeftLoop c seqlen n skew pq ab
+/-- the priority queue of the `skew < 0` branch: `first[a[i]-1]` of every sequence with `a[i] > 0` -/
+def pqLeft (c : Ctx) (a : Array Int) : List Nat → M (List Sample)
+  | [] => pure []
+  | i :: is =>
+    if aget a i > 0 then do
+      let v ← rd c i (aget a i - 1)
+      let rest ← pqLeft c a is
+      pure ((v, i) :: rest)
+    else pqLeft c a is
 
-/-- `for (; skew != 0; ++skew)` of the `skew < 0` branch (`pq.top()` of an empty queue is a failure) -/
+/-- `for (; skew != 0; ++skew)` of the `skew < 0` branch: move to the right, find greatest
+(`pq.top()` of an empty queue is a failure) -/
 def moveRightLoop (c : Ctx) (n : Nat) : Nat → List Sample → AB → M AB
   | 0, _, ab => pure ab
   | skew + 1, pq, ab =>
     match pickMax c.lt pq with
     | none => throw "top-of-empty-priority-queue"
-    | some (_, src) => do
-      let pq := removeSeq src pq
-      let a := ab.a.set! src (ab.a[src]! - (n + 1))
-      let b := ab.b.set! src (ab.b[src]! - (n + 1))
-      if a[src]! > 0 then
-        let v ← rd c src (a[src]! - 1)
-        moveRightLoop c n skew (pq ++ [(v, src)]) ⟨a, b⟩
+    | some (_, src) =>
+      let a := aset ab.a src (aget ab.a src - (n + 1))
+      let b := aset ab.b src (aget ab.b src - (n + 1))
+      if aget a src > 0 then do
+        let v ← rd c src (aget a src - 1)
+        moveRightLoop c n skew (removeSeq src pq ++ [(v, src)]) ⟨a, b⟩
       else
-        moveRightLoop c n skew pq ⟨a, b⟩
-
-/-- `skew < 0`: move to the right, find greatest -/
-def moveRight (c : Ctx) (m : Nat) (n : Nat) (skew : Nat) (ab : AB) : M AB := do
-  let mut pq : List Sample := []
-  for i in List.range m do
-    if ab.a[i]! > 0 then
-      let v ← rd c i (ab.a[i]! - 1)
-      pq := pq ++ [(v, i)]
-  moveRightLoop c n skew pq ab
+        moveRightLoop c n skew (removeSeq src pq) ⟨a, b⟩
 
 /-- one round of `while (n > 0)`; `n` is the already halved value -/
-def round (c : Ctx) (r : Routine) (m : Nat) (seqlen : Array Int) (rank n : Nat) (ab : AB) : M AB := do
-  let lmax ← scanLmax c r m ab.a
-  let ab ← classify c r m seqlen lmax n ab
-  let skew : Int := ((rank / (n + 1) : Nat) : Int) - leftsizeOf m ab.a n
-  if skew > 0 then moveLeft c m seqlen n skew.toNat ab
-  else if skew < 0 then moveRight c m n (-skew).toNat ab
-  else return ab
+def round (c : Ctx) (r : Routine) (seqlen : Array Int) (rank n : Nat) (ab : AB) : M AB := do
+  let idx := List.range c.runs.size
+  let lmax ← scanLmax c r ab.a idx none
+  let ab ← classify c r seqlen lmax n idx ab
+  let skew : Int := ((rank / (n + 1) : Nat) : Int) - leftsizeOf ab.a n idx
+  if skew > 0 then do
+    let pq ← pqRight c seqlen ab.b idx
+    moveLeftLoop c seqlen n skew.toNat pq ab
+  else if skew < 0 then do
+    let pq ← pqLeft c ab.a idx
+    moveRightLoop c n (-skew).toNat pq ab
+  else pure ab
 
 /-- `while (n > 0) { n /= 2; … }` with fuel (n halves, so `fuel = l` suffices) -/
-def rounds (c : Ctx) (r : Routine) (m : Nat) (seqlen : Array Int) (rank : Nat) : Nat → Nat → AB → M AB
+def rounds (c : Ctx) (r : Routine) (seqlen : Array Int) (rank : Nat) : Nat → Nat → AB → M AB
   | 0, _, ab => pure ab
   | fuel + 1, n, ab =>
     if n = 0 then pure ab else do
-      let ab ← round c r m seqlen rank (n / 2) ab
-      rounds c r m seqlen rank fuel (n / 2) ab
+      let ab ← round c r seqlen rank (n / 2) ab
+      rounds c r seqlen rank fuel (n / 2) ab
+
+structure Out where
+  a : Array Int
+  b : Array Int
+  seqlen : Array Int
+
+def seqlenOf (c : Ctx) : Array Int := (c.runs.toList.map (fun x => (x.size : Int))).toArray
+
+def nmaxOf (c : Ctx) : Nat := c.runs.toList.foldl (fun acc x => max acc x.size) 0
 
 /-- the common body: initial partition + halving refinement -/
 def refine (c : Ctx) (r : Routine) (rank : Nat) : M Out := do
   let m := c.runs.size
-  let seqlen : Array Int := c.runs.map (fun x => (x.size : Int))
-  let nmax : Nat := c.runs.foldl (fun acc x => max acc x.size) 0
-  let l : Nat := roundUpPow2 (nmax + 1) - 1
+  let seqlen := seqlenOf c
+  let l : Nat := roundUpPow2 (nmaxOf c + 1) - 1
   let n : Nat := l / 2
   let sample ← initSample c seqlen n
-  let ab ← initAB m seqlen sample.toArray n l (rank / l)
-  let ab ← rounds c r m seqlen rank l n ab
-  return { a := ab.a, b := ab.b, seqlen := seqlen }
+  let ab := initAB m seqlen sample n l (rank / l)
+  let ab ← rounds c r seqlen rank l n ab
+  pure { a := ab.a, b := ab.b, seqlen := seqlen }
+
+/-- final scan, left edge of sequence `i`: `maxleft` (the assignment `maxleft = &first[..]` evaluates the read again) -/
+def edgeLeft (c : Ctx) (r : Routine) (o : Out) (i : Nat) (ml : Option Int) : M (Option Int) :=
+  if aget o.a i > 0 then do
+    let x ← rd c i (aget o.a i - 1)
+    match ml with
+    | none => pure (some x)
+    | some v =>
+      if takesMax c.lt r x v then do
+        let x' ← rd c i (aget o.a i - 1)
+        pure (some x')
+      else pure (some v)
+  else pure ml
+
+/-- final scan, right edge of sequence `i`: `minright` -/
+def edgeRight (c : Ctx) (o : Out) (i : Nat) (mr : Option Int) : M (Option Int) :=
+  if aget o.b i < aget o.seqlen i then do
+    let x ← rd c i (aget o.b i)
+    match mr with
+    | none => pure (some x)
+    | some v =>
+      if c.lt x v then do
+        let x' ← rd c i (aget o.b i)
+        pure (some x')
+      else pure (some v)
+  else pure mr
 
 /-- final scan: maximum of the left edge, minimum of the right edge (reads in the C++ order) -/
-def edges (c : Ctx) (r : Routine) (o : Out) : M (Option Int × Option Int) := do
-  let m := c.runs.size
-  let mut maxleft : Option Int := none
-  let mut minright : Option Int := none
-  for i in List.range m do
-    if o.a[i]! > 0 then
-      let x ← rd c i (o.a[i]! - 1)
-      match maxleft with
-      | none => maxleft := some x
-      | some v =>
-        let take := match r with
-          | .partition => !c.lt x v
-          | .selection => c.lt v x
-        if take then
-          let x' ← rd c i (o.a[i]! - 1)
-          maxleft := some x'
-    if o.b[i]! < o.seqlen[i]! then
-      let x ← rd c i o.b[i]!
-      match minright with
-      | none => minright := some x
-      | some v =>
-        if c.lt x v then
-          let x' ← rd c i o.b[i]!
-          minright := some x'
-  return (maxleft, minright)
+def edges (c : Ctx) (r : Routine) (o : Out) : List Nat → Option Int → Option Int → M (Option Int × Option Int)
+  | [], ml, mr => pure (ml, mr)
+  | i :: is, ml, mr =>
+    edgeLeft c r o i ml >>= fun ml' =>
+    edgeRight c o i mr >>= fun mr' =>
+    edges c r o is ml' mr'
 
-def totalLen (c : Ctx) : Nat := c.runs.foldl (fun acc x => acc + x.size) 0
+def totalLen (c : Ctx) : Nat := c.runs.toList.foldl (fun acc x => acc + x.size) 0
 
 /-- `multisequence_partition`: the offsets `begin_offsets[i] - begin_seqs[i].first` -/
-def partitionM (c : Ctx) (rank : Nat) : M (Array Int) := do
+def partitionM (c : Ctx) (rank : Nat) : M (Array Int) :=
   if rank == totalLen c then
-    return c.runs.map (fun x => (x.size : Int))
+    pure (seqlenOf c)
   -- assert(m != 0 && N != 0 && rank < N)
-  if c.runs.size == 0 || rank > totalLen c then throw "assertion"
-  let o ← refine c .partition rank
-  let _ ← edges c .partition o
-  return o.a
+  else if c.runs.size == 0 || rank > totalLen c then throw "assertion"
+  else do
+    let o ← refine c .partition rank
+    let _ ← edges c .partition o (List.range c.runs.size) none none
+    pure o.a
 
 /-- `std::lower_bound(first, first + seqlen, v, comp) - first` on a sequence partitioned by `comp(·, v)` -/
 def lowerBound (lt : Int → Int → Bool) (run : Array Int) (v : Int) : Nat :=
   (run.toList.takeWhile (fun x => lt x v)).length
 
+def offsetSum (c : Ctx) (a : Array Int) (mr : Int) : List Nat → Int
+  | [] => 0
+  | i :: is => (aget a i - (lowerBound c.lt (c.runs.getD i #[]) mr : Int)) + offsetSum c a mr is
+
 /-- `multisequence_selection`: (selected value, offset) -/
-def selectionM (c : Ctx) (rank : Nat) : M (Int × Int) := do
+def selectionM (c : Ctx) (rank : Nat) : M (Int × Int) :=
   if c.runs.size == 0 || totalLen c == 0 || rank ≥ totalLen c then throw "std::exception"
-  let o ← refine c .selection rank
-  let (maxleft, minright) ← edges c .selection o
-  match minright with
-  | none => throw "null-minright"
-  | some mr =>
-    let unamb := match maxleft with
-      | none => true
-      | some ml => c.lt mr ml
-    if unamb then return (mr, 0)
-    let mut offset : Int := 0
-    for i in List.range c.runs.size do
-      let lb := lowerBound c.lt c.runs[i]! mr
-      offset := offset + (o.a[i]! - lb)
-    return (mr, offset)
+  else do
+    let o ← refine c .selection rank
+    let (maxleft, minright) ← edges c .selection o (List.range c.runs.size) none none
+    match minright with
+    | none => throw "null-minright"
+    | some mr =>
+      let unamb := match maxleft with
+        | none => true
+        | some ml => c.lt mr ml
+      if unamb then pure (mr, 0)
+      else pure (mr, offsetSum c o.a mr (List.range c.runs.size))
 
 def runM {α} (x : M α) : Except String (α × Array (Nat × Int)) := x.run #[]
 
